@@ -41,6 +41,7 @@ inductive PC
   | s1    -- `with self._recv_event:` (acquire the condition's lock)
   | s2    -- `if not self._recvlock.acquire(False):`
   | s2w   -- `self._recv_event.wait(timeout.timeleft())`: join the wait-set, free the condition's lock
+  | s2f   -- `wait_for_lock` is False (`Connection.poll`): leave `with` (free the condition's lock), return False
   | zz    -- asleep inside `Condition.wait`
   | s2r   -- woken: retake the condition's lock, leave `with` (free it), `serve` returns
   | s3    -- leave `with` after a successful try-lock (free the condition's lock)
@@ -60,6 +61,7 @@ inductive PC
   | w10   -- `value`: `if self._is_exc: raise self._obj else: return self._obj`
   | b0    -- `BgServingThread._bg_server`: `while self._active:` → `self._conn.serve(0)`
   | bS    -- `time.sleep(SLEEP_INTERVAL)`
+  | q1    -- `Connection.poll_all`: `if timeout.expired(): break` (else `self.poll(timeout)` again)
   deriving DecidableEq, Repr
 
 /-- what a finished call handed to its caller -/
@@ -79,6 +81,8 @@ structure Loc where
   wdl : Option Time := none       -- absolute deadline of `Condition.wait`
   data : Option Frame := none     -- the frame this thread received
   cb : Option Seq := none         -- the callback (= result cell) popped by `_seq_request_callback`
+  nowait : Bool := false          -- a polling thread: inside `poll_all` → `poll` = `serve(timeout, wait_for_lock=False)`
+  pdl : Option Time := none       -- `poll_all`'s `Timeout(timeout).tmax`
   raising : Bool := false         -- an `EOFError` is propagating out of `serve` (through its `finally`)
   result : Option Outcome := none -- outcome of the last finished call (for `seq`)
   deriving Repr
@@ -124,6 +128,7 @@ inductive Actor
   | call (t : Tid) (tmo : Option Nat)   -- an idle client thread starts `async_request(..., timeout=tmo).value`
   | bg (t : Tid)                        -- an idle thread becomes a background serving thread
   | stop (t : Tid)                      -- `_active` is false at the loop test
+  | pollAll (t : Tid) (d : Nat)         -- an idle thread calls `conn.poll_all(d)` (`AsyncResult.ready`: d = 0)
   | run (t : Tid)                       -- thread `t` executes its next line
   | peer (q : Seq) (exc : Bool) (v : Nat)   -- the peer answers an outstanding request
   | peerEof                             -- the peer closes the stream
@@ -143,7 +148,7 @@ def expiredAt (ttl : Option Time) (now : Time) : Bool :=
   | some d => decide (d ≤ now)
 
 /-- where a thread goes when its `serve()` returns -/
-def afterServe (l : Loc) : PC := if l.bg then .bS else .w0
+def afterServe (l : Loc) : PC := if l.nowait then .q1 else if l.bg then .bS else .w0
 
 def leaveServe (l : Loc) : Loc := { l with pc := afterServe l, data := none, cb := none }
 
@@ -170,14 +175,14 @@ def doW0 (s : St) (t : Tid) (l : Loc) : St :=
   setLoc s t { l with pc := if !(s.cells l.seq).ready && !expiredAt (s.cells l.seq).ttl s.now then .s0 else .w9 }
 
 def doS0 (s : St) (t : Tid) (l : Loc) : St :=
-  setLoc s t { l with pc := .s1, dl := if l.bg then some s.now else (s.cells l.seq).ttl }
+  setLoc s t { l with pc := .s1, dl := if l.nowait then l.pdl else if l.bg then some s.now else (s.cells l.seq).ttl }
 
 def doS1 (s : St) (t : Tid) (l : Loc) : Option St :=
   if s.condLock = none then some { setLoc s t { l with pc := .s2 } with condLock := some t } else none
 
 def doS2 (s : St) (t : Tid) (l : Loc) : St :=
   if s.recvLock = none then { setLoc s t { l with pc := .s3 } with recvLock := some t }
-  else setLoc s t { l with pc := .s2w }
+  else setLoc s t { l with pc := if l.nowait then .s2f else .s2w }
 
 def doS2w (s : St) (t : Tid) (l : Loc) : St :=
   { setLoc s t { l with pc := .zz, wdl := l.dl.map (max s.now) } with
@@ -226,13 +231,13 @@ def doN2 (s : St) (t : Tid) (l : Loc) : St :=
   { setLoc s t { l with pc := .d0 } with condLock := none }
 
 /-- after the `finally`: dispatch the frame, or return `False`, or let the `EOFError` out: a client's call
-ends with it, a background thread dies (`_bg_server` re-raises) -/
+ends with it, a background thread dies (`_bg_server` re-raises), `poll_all` swallows it and returns -/
 def doD0 (s : St) (t : Tid) (l : Loc) : St :=
   match l.data with
   | some _ => setLoc s t { l with pc := .d1 }
   | none =>
     if l.raising then
-      (if l.bg then setLoc s t { l with pc := .idle, bg := false, raising := false, cb := none }
+      (if l.bg then setLoc s t { l with pc := .idle, bg := false, nowait := false, raising := false, cb := none }
        else setLoc s t { l with pc := .idle, result := some .eof, raising := false, cb := none })
     else setLoc s t (leaveServe l)
 
@@ -291,6 +296,7 @@ def stepRun (s : St) (t : Tid) : Option St :=
   | .s1 => doS1 s t (s.loc t)
   | .s2 => some (doS2 s t (s.loc t))
   | .s2w => some (doS2w s t (s.loc t))
+  | .s2f => some { setLoc s t (leaveServe (s.loc t)) with condLock := none }
   | .zz => doZz s t (s.loc t)
   | .s2r => doS2r s t (s.loc t)
   | .s3 => some (doS3 s t (s.loc t))
@@ -310,6 +316,9 @@ def stepRun (s : St) (t : Tid) : Option St :=
   | .w10 => some (doW10 s t (s.loc t))
   | .b0 => some (setLoc s t { s.loc t with pc := .s0 })
   | .bS => some (setLoc s t { s.loc t with pc := .b0 })
+  | .q1 => some (if expiredAt (s.loc t).pdl s.now
+                 then setLoc s t { s.loc t with pc := .idle, bg := false, nowait := false }
+                 else setLoc s t { s.loc t with pc := .s0 })
 
 def doPeer (s : St) (q : Seq) (exc : Bool) (v : Nat) : St :=
   { s with outstanding := s.outstanding.erase q,
@@ -323,6 +332,9 @@ def step (s : St) : Actor → Option St
   | .bg t => if (s.loc t).pc = .idle ∧ (s.loc t).bg = false
              then some (setLoc s t { s.loc t with pc := .b0, bg := true }) else none
   | .stop t => if (s.loc t).pc = .b0 then some (setLoc s t { s.loc t with pc := .idle, bg := false }) else none
+  | .pollAll t d => if (s.loc t).pc = .idle ∧ (s.loc t).bg = false
+             then some (setLoc s t { s.loc t with pc := .s0, bg := true, nowait := true, pdl := some (s.now + d) })
+             else none
   | .run t => stepRun s t
   | .peer q exc v => if q ∈ s.outstanding ∧ s.eof = false then some (doPeer s q exc v) else none
   | .peerEof => if s.eof = false then some { s with eof := true } else none
